@@ -98,6 +98,7 @@ def run(idx, rep, tier):
     r6(idx, rep)
     from . import c06
     c06.header_index_sequences(idx, rep, "R6")
+    runtime_fresh(idx, rep, "R6")
 
 
 def _terminal(gsrc, name):
@@ -242,3 +243,40 @@ def r6(idx, rep):
         if len(ps) != 1 or ps[0].result != ("return", want):
             bad = bad or f"$.headers.{name} on line {line}: prints {ps[0].result}, documented {want!r}"
     rep.check(bad is None, "R6", f"{fl.file}::PrintParser._ref_from_list table", bad or "", K.where(fl, fl.node))
+
+
+def runtime_fresh(idx, rep, rid):
+    """$.csvpath.<field> prints the value current at that point of the line: the collector is interpreted twice on one csvpath whose
+    verdict and headers change in between (fail() / reset_headers() between two print()s of the same line, counters unchanged) — the
+    second collection must show the new values"""
+    fi = idx.method("RuntimeDataCollector", "collect")
+    rep.analysed(fi)
+
+    def program(it):
+        r1 = {}
+        it.call_function(fi, {"__pos__": [Obj("cp"), r1], "local": True}, "cls")
+        it.store["cp.is_valid"] = False
+        it.store["cp.headers"] = ["b"]
+        it.store["cp.stopped"] = True
+        r2 = {}
+        it.call_function(fi, {"__pos__": [Obj("cp"), r2], "local": True}, "cls")
+        return r1, r2
+
+    it = Interp(idx, types={"cls": "RuntimeDataCollector", "self": "RuntimeDataCollector"}, inline_all={"RuntimeDataCollector"}, unknown_calls="residual")
+    st = {"cp.is_valid": True, "cp.headers": ["a"], "cp.stopped": False, "cp.line_monitor": Obj("lm"), "cp.scanner": Obj("sc"), "cp.lines": None,
+          "lm.physical_line_number": 3, "lm.physical_line_count": 4, "lm.data_line_count": 3, "cp.scan_count": 2, "cp.match_count": 1,
+          "cp.current_scan_count": 2, "cp.current_match_count": 1}
+    ps = it.run_program(program, st)
+    bad = None
+    for p in ps:
+        if p.result[0] != "return":
+            bad = bad or f"collect ends in {p.result}"
+            continue
+        r1, r2 = p.result[1]
+        first = {k: r1.get(k) for k in ("valid", "headers", "stopped")}
+        second = {k: r2.get(k) for k in ("valid", "headers", "stopped")}
+        if first != {"valid": True, "headers": ["a"], "stopped": False}:
+            bad = bad or f"first collection shows {first} for a valid, running csvpath with headers ['a']"
+        if second != {"valid": False, "headers": ["b"], "stopped": True}:
+            bad = bad or f"after the verdict, the headers and the stopped flag changed within the line the second collection still shows {second} (a print() later on the same line prints stale $.csvpath values)"
+    rep.check(bad is None and len(ps) >= 1, rid, f"{fi.file}::RuntimeDataCollector.collect reads the csvpath every time", bad or f"{len(ps)} paths", K.where(fi, fi.node))
